@@ -501,6 +501,23 @@ func (e *secretExec) step(s *SecStep) {
 				o.Violate("C19", "roundtrip", fmt.Sprintf("value read through a held %s view: err=%v", name, err), nil)
 				continue
 			}
+			// looking at the metadata (printing it for a log line, iterating, comparing, cloning)
+			// leaves the stored value as it is: same bytes, still readable with the key
+			before, _ := view.GetBytes("k")
+			keep := append([]byte{}, before...)
+			guard(o, "Meta.String / Iter / Equals / WriteableClone", func() {
+				_ = view.String()
+				for range view.Iter() {
+				}
+				_ = view.Equals(view.WriteableClone().ReadOnly())
+				_ = view.WriteableClone().String()
+			})
+			o.Eval("C19")
+			after, _ := view.GetBytes("k")
+			if back, rerr := e.read(view, "k", p.Key); !bytes.Equal(after, keep) || rerr != nil || !bytes.Equal(back, p.Plain) {
+				o.Violate("C19", "failed-read-changed-stored", fmt.Sprintf("after the metadata of a %s view was printed, iterated, compared and cloned, the encrypted value is no longer what it was (stored bytes equal: %v, readable: %v)", name, bytes.Equal(after, keep), rerr == nil), map[string]string{"after": "print"})
+				continue
+			}
 			flipped := append([]byte{}, p.Key...)
 			flipped[s.N%32] ^= 1 << uint(s.N%8)
 			other := bytes.Repeat([]byte{0x5a}, 32)
